@@ -13,6 +13,7 @@ Inductive rawev :=
 | RMtu (m : int)
 | RRef (p ridx ep : int)
 | RAns (p ridx ep : int)
+| RAns2 (p ra ea rb eb w : int)     (* two racing responses; w = 0|1: which one completed (oracle: read off the wire) *)
 | RRoam (p ep : int)
 | RReplayInit (p ep : int)
 | RSetEp (p ep : int)
@@ -52,6 +53,7 @@ Definition dec_ev (r : rawev) : event :=
   | RMtu m => MtuUpdate (Z.of_N (ni m))
   | RRef p r e => RefHs (ni p) (ni r) (ni e)
   | RAns p r e => AnswerHs (ni p) (ni r) (ni e)
+  | RAns2 p ra ea rb eb w => answer_race (ni p) (ni ra) (ni ea) (ni rb) (ni eb) (negb (ni w =? 0))
   | RRoam p e => Roam (ni p) (ni e)
   | RReplayInit p e => ReplayInit (ni p) (ni e)
   | RSetEp p e => SetEp (ni p) (ni e)
